@@ -102,6 +102,9 @@ def action_instances(game, rng: random.Random, per_type: int = 6) -> List[Tuple[
                     # (likewise c2-server: it is driven by the c2-server-* actions and has no `execute` of its own)
                     cands.append(({"node_name": h, "application_name": a}, not (a in ("nmap", "c2-server") and name == "node-application-execute")))
                 cands.append(({"node_name": h, "application_name": "no-such-app"}, False))
+                for a in apps[:2]:
+                    if "-" in a:  # a near miss: the other usual spelling of an existing name names nothing
+                        cands.append(({"node_name": h, "application_name": a.replace("-", "_")}, False))
             elif name == "node-application-install":
                 for a in ("dos-bot", "database-client", "web-browser"):
                     cands.append(({"node_name": h, "application_name": a}, True))
@@ -112,6 +115,11 @@ def action_instances(game, rng: random.Random, per_type: int = 6) -> List[Tuple[
                 for s in svcs:
                     cands.append(({"node_name": h, "service_name": s}, True))
                 cands.append(({"node_name": h, "service_name": "no-such-service"}, False))
+                for sv in svcs[:2]:
+                    if "-" in sv:
+                        cands.append(({"node_name": h, "service_name": sv.replace("-", "_")}, False))
+                if "_" in h and svcs:
+                    cands.append(({"node_name": h.replace("_", "-"), "service_name": svcs[0]}, False))
             elif name == "node-file-create":
                 cands.append(({"node_name": h, "folder_name": "vfold", "file_name": f"v{rng.randrange(5)}.txt"}, True))
                 for fo, fi in fl[:2]:
